@@ -535,6 +535,34 @@ def run(ctx):
         flows = any(isinstance(c, ast.Call) and call_name(c) == "node" and c.args and _fold(ctx, xm.module, c.args[0]) == (True, "model")
                     and any(k.arg is None and norm(k.value) == norm(dest) for k in c.keywords) for c in walk_own(xm.node))
         r4.check(flows, "Survey.xml_model:model_kwargs", "the attribute dict is splatted onto the model element", xm.loc(store))
+    # the atom itself comes from the form definition only: a survey built from a dict has the entity features that dict
+    # lists - whatever the same builder object built before (evaluated: one builder, an entity form, then a plain form,
+    # then the entity form again; element classes are stubs that keep what they are given)
+    bcls = ctx.repo.cls("pyxform.builder:SurveyElementBuilder")
+    cf = bcls.methods["create_survey_element_from_dict"]
+
+    def _stub(i, a, k, n):
+        return Obj(None, {"name": k.get("name"), "type": k.get("type"), "children": [], "entity_features": k.get("entity_features"), "add_child": lambda i2, a2, k2, n2: None,
+                          "add_children": lambda i2, a2, k2, n2: None, "setvalues_by_triggering_ref": None, "setgeopoint_by_triggering_ref": None}, name="section")
+    bh = {"fnname:_create_question_from_dict": lambda i, a, k, n: Obj(None, {"name": "q"}, name="q"), "new:GroupedSection": _stub, "new:RepeatingSection": _stub, "new:Survey": _stub,
+          "new:EntityDeclaration": lambda i, a, k, n: Obj(None, {"name": "entity"}, name="entity"), "new:ExternalInstance": lambda i, a, k, n: Obj(None, {"name": "x"}, name="x")}
+    itb = ctx.interp("C19.R4", hooks=bh, inline=lambda fi: True)
+    itb.reset([])
+    bobj = Obj(bcls, {}, name="builder")
+    itb.call_function(bcls.methods["__init__"], [bobj], {}, None, None)
+    FEATS = ["create", "update", "offline"]
+    ent_form = {"type": "survey", "name": "data", "entity_features": list(FEATS), "children": [{"type": "text", "name": "a"}, {"type": "group", "name": "meta", "control": {"bodyless": True},
+                "children": [{"type": "entity", "name": "entity", "parameters": {"dataset": "trees"}}]}]}
+    plain_form = {"type": "survey", "name": "data", "children": [{"type": "text", "name": "a"}]}
+    got_hist = []
+    try:
+        for form in (ent_form, plain_form, ent_form, plain_form):
+            sv_ = itb.call_function(cf, [bobj], {"d": {k_: (list(v_) if isinstance(v_, list) else v_) for k_, v_ in form.items()}}, None, cf.node)
+            got_hist.append(sv_.attrs.get("entity_features") if isinstance(sv_, Obj) else repr(sv_))
+    except Raised as e:
+        got_hist.append(f"raises {e.exc_name}{e.exc_args}")
+    r4.check(got_hist == [FEATS, None, FEATS, None], "builder history[entity form, plain form, entity form, plain form]", "each built survey has exactly the entity features its own definition lists", cf.loc(),
+             why_fail=repr(got_hist))
     rules.append(r4)
 
     # ------------------------------------------------------------------ R5
